@@ -35,7 +35,7 @@ def extract_writer(p: Program, rep: Report, rule: str) -> CookieWriter:
     if quote is None:
         raise AnalysisError("Cookie._quote vanished")
     rep.analysed(quote.fq)
-    paths, col, it = run_paths(p, quote, cookie)
+    paths, col, it = run_paths(p, quote, cookie, inline=lambda fi: False)  # the predicate helpers are what is analysed below
     rep.cfg_paths += len(paths)
     rets = [pa for pa in paths if pa.exit == "return"]
     fast = [pa for pa in rets if pa.value == ("param", "value")]
